@@ -2,6 +2,7 @@ package world
 
 import (
 	"fmt"
+	"strings"
 	"sync/atomic"
 	"time"
 
@@ -83,6 +84,9 @@ type RedisCfg struct {
 	// SeedNodes: when not empty the host list consists of these nodes only (the other nodes exist in the cluster and are
 	// reached through redirections, but discovery has not announced them)
 	SeedNodes []int `json:"seed_nodes,omitempty"`
+	// NamedSeeds: the host list names the nodes by host name (node-<i>.cluster.test:<port>) instead of by IP address;
+	// the cluster itself (CLUSTER NODES, MOVED, ASK) keeps speaking in IP addresses, as a real one does
+	NamedSeeds bool `json:"named_seeds,omitempty"`
 	// BackupHosts: this many extra members of type backup in the host list (standby addresses where nothing
 	// listens); while a main member is usable the service must not use them for anything
 	BackupHosts int `json:"backup_hosts,omitempty"`
@@ -193,7 +197,12 @@ func (e *RedisEnv) Hosts() []*host.Host {
 				continue
 			}
 		}
-		hs = append(hs, host.New(n.Addr))
+		addr := n.Addr
+		if e.Cfg.NamedSeeds {
+			addr = fmt.Sprintf("node-%d.cluster.test%s", n.Idx, n.Addr[strings.LastIndex(n.Addr, ":"):])
+			e.Net.Alias(addr, n.Addr)
+		}
+		hs = append(hs, host.New(addr))
 	}
 	for i := 0; i < e.Cfg.BackupHosts; i++ {
 		hs = append(hs, host.NewWithType(fmt.Sprintf("10.1.%d.250:7999", i), host.TypeBackup))
